@@ -17,7 +17,7 @@ SPEC = {
              "when the type is composite (tuple/array) or a range probe; distinct = distinct (type, value, back-end, version)."),
     "assumptions": ["algosdk.abi is the ARC-4 reference codec", "reference AVM (vlib/avm.py) semantics, calibrated by setup gates"],
     "min_evaluations": {"quick": 3000, "thorough": 40000},
-    "must_reach": ["encode_ok", "descriptor_ok", "backend_main", "backend_sub_frame", "backend_sub_scratch", "range_py_rejected", "range_rt_failed",
+    "must_reach": ["encode_ok", "descriptor_ok", "backend_main", "backend_sub_frame", "backend_sub_scratch", "range_py_rejected", "range_literal_length_rejected", "range_rt_failed",
                    "meta_checked"],
     "shard_timeout": {"quick": 2400, "thorough": 14400},
 }
@@ -182,6 +182,22 @@ def range_probe(pt, acc, rng):
         acc.counters["range_py_rejected"] += 1
     except Exception as e:
         acc.violation("range_py_crash", case, "%s.set(-1) raised %s" % (tname, type(e).__name__))
+    # byte-string literals: their length prefix is a uint16, so a str/bytes literal of 65536 bytes or more does not fit and has to be
+    # refused (by whatever exception), while one of 65535 bytes is accepted
+    big = rng.choice([65536, 65537, 65536 + rng.randrange(5000), 131072, 65536 * 3 + 5])
+    for mkname, val in rng.sample([("String", "a" * big), ("String", b"b" * big), ("DynamicBytes", b"c" * big), ("DynamicBytes", bytearray(big)),
+                                   ("String", "\u00e9" * (big // 2))], 2):
+        try:
+            getattr(pt.abi, mkname)().set(val)
+            acc.violation("range_py_accepted", dict(case, literal="%s of %d bytes" % (type(val).__name__, big)),
+                          "abi.%s.set(<%s literal of %d bytes>) accepted although its length does not fit the uint16 prefix" % (mkname, type(val).__name__, big))
+        except Exception:
+            acc.counters["range_literal_length_rejected"] += 1
+    try:
+        pt.abi.String().set("z" * 65535)
+        acc.counters["range_literal_length_fit_accepted"] += 1
+    except Exception as e:
+        acc.violation("range_rt_fit_wrong", dict(case, literal="str of 65535 bytes"), "abi.String.set(<65535-byte literal>) rejected although it fits: %s" % type(e).__name__)
     if bits == 64:
         return
     # run-time value
